@@ -155,11 +155,15 @@ def landscapes_and_tables(spec_cases: list[dict]) -> dict:
         for inst in insts:
             try:
                 leaves, treedef = jax.tree.flatten(inst)
-                children, aux = inst.tree_flatten()
-                if not set(aux) <= params:
-                    out['bad'].append(f'unflatten_undefined:{name}:aux={sorted(aux)}:ctor={sorted(params)}')
-                if name in spec_l and set(aux) != set(spec_l[name]['fields']):
-                    out['drift'].append(f'aux_keys:{name}:{sorted(aux)}')
+                # how aux_data is represented is the implementation's business: the property is the round trip
+                # itself (below); the keys are only compared with the spec's table as drift information
+                try:
+                    children, aux = inst.tree_flatten()
+                    keys = set(aux) if isinstance(aux, dict) else {k for k, _ in aux}
+                    if name in spec_l and keys != set(spec_l[name]['fields']):
+                        out['drift'].append(f'aux_keys:{name}:{sorted(keys)}')
+                except Exception:
+                    out['drift'].append(f'aux_keys_unreadable:{name}')
                 back = jax.tree.unflatten(treedef, leaves)
                 for attr in ('shape', 'dtype', 'stokes', 'nside', 'pixel_shape'):
                     if getattr(back, attr) != getattr(inst, attr):
@@ -221,6 +225,10 @@ def run(tier: str, seed: int) -> int:
     for c in subjects:
         c['id'] = fx.case_id({'t': c['term'], 'n': c['names']})
     rng = random.Random(seed)
+    if tier != 'quick' and len(subjects) > 3000:
+        atoms = [c for c in subjects if c['names'][0] == '1']
+        rest = [c for c in subjects if c['names'][0] != '1']
+        subjects = atoms + rng.sample(rest, 3000 - len(atoms))       # each subject costs three jit compilations
     if tier == 'quick':
         atoms = [c for c in subjects if c['names'][0] == '1']
         rest, _ = fx.stratified_sample([c for c in subjects if c['names'][0] != '1'],
@@ -278,7 +286,7 @@ def run(tier: str, seed: int) -> int:
                 'variants) x {eager, jit over a closure, equinox.filter_jit with the operator as argument, flatten/unflatten} x '
                 'x64 off/on, plus boolean-mask IndexOperator and PackOperator on a Stokes container, plus Healpix/Frequency '
                 'landscapes through flatten/unflatten; non-trivial = the subject is not an identity operator',
-        'exhaustive': tier != 'quick', 'subjects': len(subjects), 'classes_covered_at_root': sorted(classes_seen),
+        'exhaustive': False, 'subjects': len(subjects), 'classes_covered_at_root': sorted(classes_seen),
         'classes_not_at_root': missing, 'table_drift': lres['drift'], 'landscape_findings': lres['bad'],
         'samples': sample,
     }, ['the control-dependency table is a reading of the code; its truth is established by execution',
